@@ -11,7 +11,7 @@ class TcpPeer(object):
     Only the peer thread touches the simulator while it runs; inspect it after stop() / at quiescence.
     """
 
-    def __init__(self, sim, rcvbuf=None, sndbuf=None, read_chunk=65536, read_delay=0.0, write_chunk=None, write_delay=0.0):
+    def __init__(self, sim, rcvbuf=None, sndbuf=None, read_chunk=65536, read_delay=0.0, write_chunk=None, write_delay=0.0, stall_after=None, stall_s=0.0):
         self.sim = sim
         self.rcvbuf = rcvbuf
         self.sndbuf = sndbuf
@@ -19,6 +19,9 @@ class TcpPeer(object):
         self.read_delay = read_delay
         self.write_chunk = write_chunk
         self.write_delay = write_delay
+        self.stall_after = stall_after     # after this many received bytes the peer stops reading once, for stall_s seconds
+        self.stall_s = stall_s
+        self.stalled = False
         self.lsock = socket.socket(socket.AF_INET, socket.SOCK_STREAM)
         self.lsock.setsockopt(socket.SOL_SOCKET, socket.SO_REUSEADDR, 1)
         if rcvbuf:
@@ -80,6 +83,9 @@ class TcpPeer(object):
                     sim.host_bytes(data, "tcp")
                 if self.read_delay:
                     time.sleep(self.read_delay)
+                if self.stall_after is not None and not self.stalled and self.received >= self.stall_after:
+                    self.stalled = True
+                    time.sleep(self.stall_s)
             # say everything the device has to say now
             while True:
                 with self.lock:
